@@ -350,6 +350,15 @@ def r5_container_defaults(ctx):
         pc = path_condition(fx.cfg, fx.cfg.node_of(st).id, expand=fx)
         import re as _re
         extra = [a for a in pc[0] if "default" not in _re.sub(r"\b(ELEM|KEY|ACC)_\w+", "E", a)]
+        # skipping a *non-regex* column that the frame does not have is fine (there is nothing to fill); regex-named columns
+        # must still be reached although their name (a pattern) is never a frame column
+        presence = [a for a in extra if " in " in a and (".name" in a or "KEY_" in a)]
+        regex = [a for a in extra if a.endswith(".regex")]
+        if presence and regex and len(presence) + len(regex) == len(extra):
+            names_ = list(pc[0])
+            reach = any(all((r[names_.index(a)] is False) for a in presence) and all(r[names_.index(a)] is True for a in regex) for r in pc[1])
+            if reach:
+                extra = []
         ctx.ob("R5", f, "polars container fills the default of every column that declares one", not extra,
                f"applied under {show_condition(pc)}" if not extra else
                f"the default is applied only under {show_condition(pc)}: the extra condition(s) {extra} skip columns (e.g. regex-named ones, whose "
